@@ -24,6 +24,7 @@ type Stmt struct {
 	Index  int      `json:"index,omitempty"`
 	Abs    bool     `json:"abs,omitempty"`   // conn/connref: written at root with absolute paths instead of inside Scope
 	Under  bool     `json:"under,omitempty"` // conn: written inside a child map with `_.` prefixes
+	Pattern string  `json:"pattern,omitempty"` // glob: one segment containing '*', or "**"
 }
 
 type Program struct {
@@ -98,6 +99,18 @@ func (s Stmt) print() string {
 			return key(s.Scope) + ": {\n  zz_inner: {\n    _." + key(src) + " " + s.Arrow + " _." + key(dst) + labelSuffix(s.Value) + "\n  }\n}\n"
 		}
 		body = key(src) + " " + s.Arrow + " " + key(dst) + labelSuffix(s.Value)
+	case "glob":
+		pre := ""
+		if s.Abs && len(s.Scope) > 0 {
+			pre = key(s.Scope) + "."
+		}
+		body = pre + s.Pattern + "." + s.Key + ": " + val(s.Value)
+	case "edgeglob":
+		pre := ""
+		if s.Abs && len(s.Scope) > 0 {
+			pre = key(s.Scope) + "."
+		}
+		body = pre + "(* -> *)[*]." + s.Key + ": " + val(s.Value)
 	case "connref":
 		src, dst := full(s.Src), full(s.Dst)
 		body = fmt.Sprintf("(%s %s %s)[%d]", key(src), s.Arrow, key(dst), s.Index)
@@ -119,6 +132,7 @@ func labelSuffix(v *string) string {
 // ----- reference model -----
 
 type rObj struct {
+	GrayAttrs map[string]bool // attributes whose value the statements leave open
 	Name     string // first spelling
 	Primary  *string
 	LabelFld *string
@@ -137,9 +151,18 @@ type rEdge struct {
 	dead               bool
 }
 
+type rGlob struct {
+	Scope   *rObj
+	Pattern string // one segment with '*', or "**"
+	Key     string
+	Value   string
+	EdgeAll bool // (* -> *)[*].<key>: value, in Scope
+}
+
 type rBoard struct {
 	Root  *rObj
 	Edges []*rEdge
+	Globs []*rGlob
 	seq   int
 	// Gray marks constructs whose outcome the statements leave open
 	Gray   bool
@@ -170,6 +193,7 @@ func (b *rBoard) ensure(from *rObj, path []string) *rObj {
 		if c == nil {
 			c = &rObj{Name: seg, Attrs: map[string]string{}, Parent: cur}
 			cur.Children = append(cur.Children, c)
+			b.globsOnCreate(c)
 		}
 		cur = c
 	}
@@ -263,6 +287,12 @@ func (b *rBoard) Apply(s Stmt) {
 				e.dead = true
 			}
 		}
+	case "glob":
+		b.seq--
+		b.DeclareGlob(&rGlob{Scope: scope, Pattern: s.Pattern, Key: s.Key, Value: *s.Value})
+	case "edgeglob":
+		b.seq--
+		b.DeclareGlob(&rGlob{Scope: scope, Key: s.Key, Value: *s.Value, EdgeAll: true})
 	case "conn":
 		src := b.ensure(scope, s.Src)
 		dst := b.ensure(scope, s.Dst)
@@ -273,6 +303,11 @@ func (b *rBoard) Apply(s Stmt) {
 			e.Label = &v
 		}
 		b.Edges = append(b.Edges, e)
+		for _, g := range b.Globs {
+			if g.EdgeAll {
+				b.applyEdgeGlob(g, e)
+			}
+		}
 	case "connref":
 		src := b.lookup(scope, s.Src)
 		dst := b.lookup(scope, s.Dst)
@@ -336,6 +371,7 @@ type flatObj struct {
 	// primary value assigned after an explicit .label: d2 lets the .label field win)
 	LabelAlt *string
 	Attrs    map[string]string
+	Gray     map[string]bool
 }
 
 type flatEdge struct {
@@ -359,7 +395,7 @@ func (b *rBoard) Flat() ([]flatObj, []flatEdge) {
 	var walk func(o *rObj)
 	walk = func(o *rObj) {
 		for _, c := range o.Children {
-			fo := flatObj{Path: foldPath(c.path()), Name: c.Name, Label: c.label(), Attrs: c.Attrs}
+			fo := flatObj{Path: foldPath(c.path()), Name: c.Name, Label: c.label(), Attrs: c.Attrs, Gray: c.GrayAttrs}
 			if c.Primary != nil && c.LabelFld != nil && c.primSeq > c.fldSeq {
 				fo.LabelAlt = c.LabelFld
 			}
@@ -385,4 +421,105 @@ func (b *rBoard) Flat() ([]flatObj, []flatEdge) {
 		edges = append(edges, fe)
 	}
 	return objs, edges
+}
+
+// ----- globs -----
+
+// matchPattern: literal pieces case-insensitively, in order, the first anchored at the start.
+// anchoredTail additionally requires the last piece to end the name. The property statement
+// ("whose name matches the pattern") means the anchored reading; d2 leaves the tail open, which
+// an existing test pins, so names where the two readings differ are treated as gray.
+func matchPattern(name, pattern string, anchoredTail bool) bool {
+	n := strings.ToLower(name)
+	parts := strings.Split(strings.ToLower(pattern), "*")
+	if len(parts) == 1 {
+		return n == parts[0]
+	}
+	if !strings.HasPrefix(n, parts[0]) {
+		return false
+	}
+	n = n[len(parts[0]):]
+	for i := 1; i < len(parts); i++ {
+		p := parts[i]
+		last := i == len(parts)-1
+		if last && anchoredTail {
+			return strings.HasSuffix(n, p)
+		}
+		if p == "" {
+			continue
+		}
+		j := strings.Index(n, p)
+		if j < 0 {
+			return false
+		}
+		n = n[j+len(p):]
+	}
+	return true
+}
+
+func (b *rBoard) globTargets(g *rGlob, o *rObj) (match, gray bool) {
+	if g.Pattern == "**" {
+		return o != g.Scope && o.within(g.Scope), false
+	}
+	if o.Parent != g.Scope {
+		return false, false
+	}
+	a, u := matchPattern(o.Name, g.Pattern, true), matchPattern(o.Name, g.Pattern, false)
+	return a, a != u
+}
+
+func (b *rBoard) applyGlob(g *rGlob, o *rObj) {
+	m, gray := b.globTargets(g, o)
+	if gray {
+		if o.GrayAttrs == nil {
+			o.GrayAttrs = map[string]bool{}
+		}
+		o.GrayAttrs[g.Key] = true
+		return
+	}
+	if !m {
+		return
+	}
+	if g.Key == "label" {
+		v := g.Value
+		o.LabelFld, o.fldSeq = &v, b.seq
+		return
+	}
+	o.Attrs[g.Key] = g.Value
+}
+
+func (b *rBoard) globsOnCreate(o *rObj) {
+	for _, g := range b.Globs {
+		if !g.EdgeAll {
+			b.applyGlob(g, o)
+		}
+	}
+}
+
+func (b *rBoard) walk(o *rObj, f func(*rObj)) {
+	for _, c := range o.Children {
+		f(c)
+		b.walk(c, f)
+	}
+}
+
+// DeclareGlob registers the glob and applies it to everything that exists now.
+func (b *rBoard) DeclareGlob(g *rGlob) {
+	b.seq++
+	b.Globs = append(b.Globs, g)
+	if g.EdgeAll {
+		for _, e := range b.Edges {
+			b.applyEdgeGlob(g, e)
+		}
+		return
+	}
+	b.walk(b.Root, func(o *rObj) { b.applyGlob(g, o) })
+}
+
+// (* -> *)[*] in scope S: connections between two direct children of S
+func (b *rBoard) applyEdgeGlob(g *rGlob, e *rEdge) {
+	if e.dead || e.Src.Parent != g.Scope || e.Dst.Parent != g.Scope {
+		return
+	}
+	e.Attrs[g.Key] = g.Value
 }
